@@ -212,12 +212,12 @@ pub fn run(cfg: &Cfg) -> (Log, Meta) {
     log.harness_error(&format!("oracle self-test failed: {}", e));
   }
   let bounds = boundary_instants();
-  let total = cfg.tier.pick(1_000_000usize, 20_000_000usize);
+  let total = cfg.tier.pick(1_000_000usize, 100_000_000usize);
   let per_block = 5_000;
   let blocks = total / per_block;
   log.merge(par_range(blocks, 1, |b, l| arithmetic_block(b, per_block, cfg, &bounds, l)));
   log.merge(par_range(cal().month_first.len(), 64, |mi, l| scan_month_end(mi, cfg, l)));
-  let nh = cfg.tier.pick(40_000usize, 800_000usize);
+  let nh = cfg.tier.pick(40_000usize, 4_000_000usize);
   log.merge(par_range(nh, 200, |i, l| crate::history::instant_walk("C12", "a sequence of clock operations at related instants on one thread", i, cfg.seed, LO + 2, HI - 2, l, history_op)));
   log.floor("history.answers_judged", cfg.tier.pick(350_000, 7_000_000));
   log.floor("clock.day_crossings", cfg.tier.pick(50_000, 1_000_000));
